@@ -185,6 +185,26 @@ func c02Spaces(tier string) []*explore.Space {
 			}
 		}
 	}
+	// parenthesised path followed by two / three boolean predicates: (P)[A][B], (P)[A][B][C],
+	// also as a function argument and inside another predicate
+	for _, h := range []gen.Step{gen.Ch("*"), gen.St("descendant", "*"), gen.Ch("node()")} {
+		g := &gen.Group{E: relPath(h)}
+		for _, a := range sm {
+			for _, b := range sm {
+				p4 = append(p4, hostCase{&gen.Filter{Primary: g, Preds: []gen.Expr{a, b}}, relPath(h)})
+			}
+		}
+		for _, a := range sm[:6] {
+			for _, b := range sm[:6] {
+				for _, c := range sm[:6] {
+					p4 = append(p4, hostCase{&gen.Filter{Primary: g, Preds: []gen.Expr{a, b, c}}, relPath(h)})
+				}
+				// candidate kept iff its filtered children exist / their count is 1
+				p4 = append(p4, hostCase{relPath(withPred(gen.St("descendant-or-self", "node()"), &gen.Filter{Primary: g, Preds: []gen.Expr{a, b}})), relPath(gen.St("descendant-or-self", "node()"))})
+				p4 = append(p4, hostCase{relPath(withPred(gen.St("descendant-or-self", "node()"), gen.B("=", gen.F("count", &gen.Filter{Primary: g, Preds: []gen.Expr{a, b}}), gen.N(1)))), relPath(gen.St("descendant-or-self", "node()"))})
+			}
+		}
+	}
 	// absolute //host[A][B]
 	for _, a := range sm {
 		for _, b := range sm {
@@ -231,6 +251,28 @@ func c02Spaces(tier string) []*explore.Space {
 			}
 		}
 	}
+	// P7: and/or/not whose operands are multi-step paths with a predicate on the
+	// last step (the engine walks these with the shared context cursor): each
+	// operand must be evaluated from the candidate, whatever the other one did
+	var p7 []hostCase
+	var movers []gen.Expr
+	for _, first := range []gen.Step{gen.Ch("*"), gen.Ch("a"), gen.St("descendant", "*"), gen.DotDot()} {
+		for _, second := range []gen.Step{gen.Ch("*"), gen.At("*"), gen.DotDot(), gen.St("following-sibling", "*"), gen.St("self", "*")} {
+			for _, lp := range []gen.Expr{gen.F("not", relPath(gen.Ch("*"))), gen.F("contains", relPath(gen.Dot()), gen.S("1")), gen.N(1), gen.F("true"), relPath(gen.At("a"))} {
+				movers = append(movers, relPath(first, withPred(second, lp)))
+			}
+		}
+	}
+	for _, h := range []gen.Step{gen.Ch("*"), gen.St("descendant-or-self", "node()"), gen.Ch("node()")} {
+		for _, m := range movers {
+			for _, b := range sm[:9] {
+				for _, op := range []string{"and", "or"} {
+					p7 = append(p7, hostCase{relPath(withPred(h, gen.B(op, m, b))), relPath(h)}, hostCase{relPath(withPred(h, gen.B(op, b, m))), relPath(h)})
+				}
+			}
+			p7 = append(p7, hostCase{relPath(withPred(h, gen.B("and", gen.F("not", m), relPath(gen.Ch("a"))))), relPath(h)})
+		}
+	}
 	t3 := func() []*doc.Tree { return uniT(3) }
 	t4 := func() []*doc.Tree { return uniT(4) }
 	if tier == "thorough" {
@@ -241,6 +283,7 @@ func c02Spaces(tier string) []*explore.Space {
 			hostSpace("P4xT4", "two predicates, nested predicates x T(<=4)", p4, t4, "C02"),
 			hostSpace("P5xT4", "existence of two-step paths over all 144 axis pairs, paths with a nested predicate on the last step x T(<=4)", p5, t4, "C02"),
 			hostSpace("P6xT4", "comparisons with two candidate-dependent operands (count vs count, path vs path) x T(<=4)", p6, t4, "C02"),
+			hostSpace("P7xT4", "and/or with a multi-step path carrying a last-step predicate as one operand, both orders x T(<=4)", p7, t4, "C02"),
 			hostSpace("P1xDeep7", "step[atom] x spine documents of depth 4..7", p1, func() []*doc.Tree { return uniDeep(7) }, "C02"),
 			hostSpace("P5/4xDeep6", "fixed stratum of two-step existence / nested predicates x spine documents", strideCases(p5, 4), func() []*doc.Tree { return uniDeep(6) }, "C02"),
 		}
@@ -265,6 +308,7 @@ func c02Spaces(tier string) []*explore.Space {
 		hostSpace("P4/2xT3", "fixed stratum (every 2nd) of two-predicate and nested-predicate hosts x T(<=3)", p4q, t3, "C02"),
 		hostSpace("P5/3xT3", "fixed stratum (every 3rd) of: existence of two-step paths over all 144 axis pairs, paths with a nested predicate on the last step x T(<=3)", strideCases(p5, 3), t3, "C02"),
 		hostSpace("P6/2xT3", "fixed stratum (every 2nd) of comparisons with two candidate-dependent operands x T(<=3)", strideCases(p6, 2), t3, "C02"),
+		hostSpace("P7xT3", "and/or with a multi-step path carrying a last-step predicate as one operand, both orders x T(<=3)", p7, t3, "C02"),
 		hostSpace("P1/4xDeep6", "fixed stratum (every 4th) of step[atom] x spine documents of depth 4..6", strideCases(p1, 4), func() []*doc.Tree { return uniDeep(6) }, "C02"),
 	}
 }
@@ -288,7 +332,7 @@ func strideCases(c []hostCase, k int) []hostCase {
 func init() {
 	explore.Register(&explore.Property{
 		ID: "C02", Level: "exploration",
-		Rule: "every predicated step of named finite slices (hosts: all step forms, prefixes, parenthesised hosts; predicates: path existence over 12 axes, =/!= literals, numeric relations, count/contains/starts-with/local-name, not/and/or, two predicates, nesting depth 2) is evaluated on every document of the universe from every context node and compared as a node set with the reference; non-trivial = the predicates keep a strict non-empty subset of the host's candidates; distinct = distinct expressions with a non-trivial case",
+		Rule: "every predicated step of named finite slices (hosts: all step forms, prefixes, parenthesised hosts; predicates: path existence over 12 axes, =/!= literals, numeric relations, count/contains/starts-with/local-name, not/and/or, two predicates, nesting depth 2; parenthesised paths with 2-3 predicates, also as argument / inside a predicate; and/or whose operands are multi-step paths with a last-step predicate, both orders) is evaluated on every document of the universe from every context node and compared as a node set with the reference; non-trivial = the predicates keep a strict non-empty subset of the host's candidates; distinct = distinct expressions with a non-trivial case",
 		Assumptions:    []string{"hand-written reference evaluator", "lawful NodeNavigator", "bounded trees and predicate nesting <= 2"},
 		Budget:         budget(90*time.Second, 30*time.Minute),
 		MinRefOutcomes: 2,
